@@ -139,7 +139,16 @@ class Recorder:
         self.evaluations += 1
         self.nviol += 1
         if len(self.violations) < self.MAX_VIOL:
-            self.violations.append({"symptom": symptom, "case": case, "detail": detail, "mech": mech})
+            v = {"symptom": symptom, "case": case, "detail": detail, "mech": mech}
+            self.violations.append(v)
+            # sidecar, written at once: a worker that is killed later (OOM, timeout) has still witnessed this
+            sp = os.environ.get("OLVERIF_SIDECAR")
+            if sp:
+                try:
+                    with open(sp, "a") as f:
+                        f.write(json.dumps(v, default=repr) + "\n")
+                except (OSError, TypeError, ValueError):
+                    pass
 
     def sample(self, obj, force=False):
         if force or len(self.samples) < self.MAX_SAMPLES:
